@@ -289,6 +289,11 @@ def verify_tables(db, cc):
                             and ast.unparse(st_.body[0].targets[0]) == "cfg[%r]" % key
                             and ast.unparse(st_.body[0].value) == "self." + const):
                         hits += 1
+                    elif (isinstance(st_, ast.Expr) and isinstance(st_.value, ast.Call)
+                          and ast.unparse(st_.value.func) == "cfg.setdefault" and len(st_.value.args) == 2
+                          and isinstance(st_.value.args[0], ast.Constant) and st_.value.args[0].value == key
+                          and ast.unparse(st_.value.args[1]) == "self." + const):
+                        hits += 1   # cfg.setdefault("<key>", self.<const>): the same meaning
                     elif isinstance(st_, ast.Assign) and any(ast.unparse(t) == "cfg[%r]" % key for t in st_.targets):
                         others += 1
                 return hits == 1 and others == 0
